@@ -112,6 +112,23 @@ Proof. exact (fun a b Ha Hb => conj (copy_spec a b) (conj (equal_p_spec a b Ha H
                 (conj (intersect_p_spec a b Ha Hb) (empty_p_spec a Ha)))). Qed.
 Print Assumptions bitmap_copy_equal_intersect_empty.
 
+(* bit_min / bit_max: 0 on the empty set, else the least / greatest member; bit_count: the number of
+   set bits ([cntl f n] counts the j < n with f j = true; every member is < 64 * len) *)
+Theorem bitmap_min_max_count_spec : forall bm, wfb bm ->
+  ((forall n, wbit bm n = false) -> bit_min bm = 0 /\ bit_max bm = 0) /\
+  (forall n, wbit bm n = true ->
+     wbit bm (bit_min bm) = true /\ wbit bm (bit_max bm) = true /\ bit_min bm <= n <= bit_max bm) /\
+  bit_count bm = cntl (fun j => wbit bm (N.of_nat j)) (64 * length bm).
+Proof.
+  exact (fun bm Hwf =>
+    conj (fun He => conj (proj1 (bit_min_spec bm Hwf) He) (proj1 (bit_max_spec bm Hwf) He))
+   (conj (fun n Hn => conj (proj1 (proj2 (bit_min_spec bm Hwf) n Hn))
+                     (conj (proj1 (proj2 (bit_max_spec bm Hwf) n Hn))
+                           (conj (proj2 (proj2 (bit_min_spec bm Hwf) n Hn)) (proj2 (proj2 (bit_max_spec bm Hwf) n Hn)))))
+         (bit_count_spec bm Hwf))).
+Qed.
+Print Assumptions bitmap_min_max_count_spec.
+
 (* ------------------------------------------------------------------ DLIST
    [Dlist.wf d l]: the heap restricted to the nodes of l is exactly the doubly linked chain l
    (head.prev = tail.next = NULL, prev/next inverse), head/tail are its ends. *)
